@@ -148,7 +148,78 @@ def aim_case(rng, case, audios, stats=None):
     return dict(case, cut=cut, mids=mids, aimed=True)
 
 
+def derive_audio(audios, spec):
+    """path of an audio given by name, or derived from a base recording: same sample count, different content
+    (rotation = time shift, equal-length excerpt at an offset, pseudo-noise mixed in); deterministic, written to the scratch dir"""
+    if isinstance(spec, str):
+        return audios[spec]
+    base = array.array("h")
+    base.frombytes(open(audios[spec["base"]], "rb").read())
+    n, kind, par = spec["n"], spec["kind"], spec["param"]
+    if kind == "rotate":
+        src = base[:n] if len(base) >= n else base
+        k = par % max(1, len(src))
+        out = src[k:] + src[:k]
+    elif kind == "excerpt":
+        off = min(par, max(0, len(base) - n))
+        out = base[off:off + n]
+    else:   # noise
+        out = array.array("h", base[:n])
+        x = par & 0x7FFFFFFF
+        for i in range(len(out)):
+            x = (1103515245 * x + 12345) & 0x7FFFFFFF
+            out[i] = max(-32768, min(32767, out[i] + ((x >> 16) % 801) - 400))
+    out = array.array("h", out)
+    while len(out) < n:          # pad by repetition so that the sample count is exactly n
+        out.extend(out[:n - len(out)])
+    path = os.path.join(os.path.dirname(audios["pizza"]), f"d-{spec['base']}-{kind}-{par}-{n}.raw")
+    if not os.path.exists(path):
+        open(path, "wb").write(out[:n].tobytes())
+    return path
+
+
+def multi_case(rng, audios):
+    """several utterances on ONE decoder with exactly the same sample count (hence frame count) and different content;
+    the lattice is requested at the same positions in each — a lattice surviving from the previous utterance would be
+    handed out again by the frame-count test of fsg_search_lattice"""
+    g, kind = gen_grammar(rng)
+    base = rng.weighted([("goforward", 5), ("goforward_fr", 3), ("pizza", 2)])
+    nfull = os.path.getsize(audios[base]) // 2
+    n = nfull if rng.chance(0.5) else rng.range(nfull // 3, nfull)
+    n -= n % 160
+    mids = sorted(set((rng.range(160, n - 160) // 160) * 160 for _ in range(rng.range(0, 2))))
+
+    def other():
+        k2 = rng.weighted([("rotate", 3), ("excerpt", 3), ("noise", 2)])
+        if k2 == "rotate":
+            return dict(base=base, kind="rotate", param=rng.range(1600, max(1601, n - 1600)), n=n)
+        if k2 == "excerpt":
+            b2 = rng.choice([x for x in ("goforward", "goforward_fr", "pizza") if x != base])
+            return dict(base=b2, kind="excerpt", param=rng.range(0, 8000), n=n)
+        return dict(base=base, kind="noise", param=rng.range(1, 10 ** 6), n=n)
+    first = dict(base=base, kind="excerpt", param=0, n=n)
+    order = rng.weighted([("AB", 4), ("BA", 3), ("ABA", 2), ("ABC", 2)])
+    pool = {"A": first, "B": other(), "C": other()}
+    utts = [dict(audio=pool[ch], cut=n, mids=list(mids), end_request=True) for ch in order]
+    if rng.chance(0.3) and mids:
+        utts[0]["end_request"] = False          # lattice of the first utterance fetched only mid-utterance
+    cfg = list(BEAMS[rng.choice(["default", "default", "narrow"])]) + [rng.choice(["bestpath=no", "bestpath=yes"])]
+    return dict(grammar=g, kind=kind, audio=base, cfg=cfg, cut=n, mids=list(mids), beam="default", k=4, utts=utts, order=order)
+
+
 def case_cmds(case, audios, bp=1):
+    if case.get("utts"):
+        cmds = ["newdec " + " ".join(case["cfg"]), "jsgf " + case["grammar"].encode().hex()]
+        for u in case["utts"]:
+            cmds += ["audio " + derive_audio(audios, u["audio"]), "start"]
+            pos = 0
+            for i, m in enumerate(u["mids"]):
+                cmds += [f"proc {m - pos}", f"lat mid{i} {case['k']} {bp}"]
+                pos = m
+            cmds += [f"proc {u['cut'] - pos}", "end"]
+            if u.get("end_request", True):
+                cmds.append(f"lat end {case['k']} {bp}")
+        return cmds
     cmds = ["newdec " + " ".join(case["cfg"]), "jsgf " + case["grammar"].encode().hex(), "audio " + audios[case["audio"]], "start"]
     pos = 0
     ops = " " + case["ops"] if case.get("ops") else ""
@@ -182,13 +253,15 @@ def kv(ws):
 
 def parse(out):
     """list of lattice dumps of one harness run"""
-    res, cur = [], None
+    res, cur, utt = [], None, -1
     for line in out.split("\n"):
         w = line.split()
         if not w:
             continue
+        if w[0] == "start" and len(w) == 2 and cur is None:
+            utt += 1
         if w[0] == "LAT" and w[1] == "begin":
-            cur = {"tag": w[2], "final": int(w[3].split("=")[1]), "frame": int(w[4].split("=")[1]), "nodes": [], "links": [],
+            cur = {"utt": max(utt, 0), "tag": w[2], "final": int(w[3].split("=")[1]), "frame": int(w[4].split("=")[1]), "nodes": [], "links": [],
                    "entries": {}, "X": [], "B": [], "BX": {}, "R": {}, "PX": [], "fsgW": {}, "fsgA": [], "hist": [],
                    "null": False, "T": None}
         elif cur is None:
@@ -245,6 +318,8 @@ def parse(out):
             cur["PX"].append((unhx(w[2]), int(w[3]), int(w[4])))
         elif w[0] == "PH":
             cur["PH"] = unhx(w[1])
+        elif w[0] == "KU":
+            cur["KU"] = kv(w[1:])
         elif w[0] == "K":
             cur["K"] = kv(w[1:])
         elif w[0] == "S":
@@ -540,6 +615,14 @@ def judge_c11(c, d, rep, tab, case, stats):
     G = d["G"]
     if G["same"] != 1 or d.get("same_after", 1) != 1:
         probs.append(("second lattice request without new audio returned a different object", True, None))
+    if d.get("utt", 0) > 0:
+        stats["request:in-a-later-utterance-of-the-same-decoder"] = stats.get("request:in-a-later-utterance-of-the-same-decoder", 0) + 1
+        if d.get("KU") and d["KU"]["prev_frames"] == G["nframes"]:
+            stats["cache:same-frame-count-as-the-last-lattice-of-the-previous-utterance"] = \
+                stats.get("cache:same-frame-count-as-the-last-lattice-of-the-previous-utterance", 0) + 1
+    if d.get("KU") and d["KU"]["stale_previous_utterance"] == 1:
+        probs.append((f"the lattice returned in utterance {d['utt'] + 1} ({d['tag']}, {G['nframes']} frames) is the object built for the previous utterance "
+                      f"on this decoder: it does not describe this utterance", True, None))
     K = d.get("K")
     if K and K["held_frames"] == K["now_frames"]:
         stats["cache:request-at-unchanged-frame-count-after-other-calls"] = stats.get("cache:request-at-unchanged-frame-count-after-other-calls", 0) + 1
@@ -653,6 +736,11 @@ def eval_case(c, binp, audios, case, stats, with_build=True):
 
 
 def describe(case):
+    if case.get("utts"):
+        return dict(grammar=case["grammar"], config=case["cfg"], nbest=case["k"], one_decoder_utterances=[
+            dict(audio=(u["audio"] if isinstance(u["audio"], str) else
+                        f"{u['audio']['n']} samples derived from tests/data/{u['audio']['base']}: {u['audio']['kind']} {u['audio']['param']}"),
+                 samples_fed=u["cut"], lattice_requests_after_samples=u["mids"] + (["end"] if u.get("end_request", True) else [])) for u in case["utts"]])
     return dict(grammar=case["grammar"], audio=f"tests/data/{case['audio']}" + (".raw" if case["audio"] != "pizza" else "-float32.raw (converted to int16)"),
                 config=case["cfg"], samples_fed=case["cut"], nbest=case["k"],
                 lattice_requests_after_samples=(["all samples in one decoder_process_int16(full_utt=1) call, before decoder_end_utt", "end"]
@@ -691,6 +779,9 @@ def check(c):
         if rng.chance(0.5):
             cs = aim_case(rng, cs, audios, stats)
         cases.append(cs)
+    # several utterances of equal length on one decoder (a lattice must not survive decoder_start_utt)
+    for _ in range(4 if c.tier == "quick" else 60):
+        cases.append(multi_case(rng, audios))
     # cache across decoder_end_utt: full_utt decodes (nothing left to flush) with a request on both sides of the end
     for _ in range(4 if c.tier == "quick" else 60):
         cs = gen_case(rng, audios)
@@ -767,6 +858,8 @@ def check(c):
              build_ok, f"{nmism} mismatching requests")
     c.oblige("every harness run finished without sanitizer report, assert or leak", harness_ok)
     if harness_ok:
+        c.oblige("later utterances on the same decoder requested a lattice at the frame count of the previous utterance's last lattice",
+                 stats.get("cache:same-frame-count-as-the-last-lattice-of-the-previous-utterance", 0) >= 1, {k: v for k, v in stats.items() if k.startswith("cache")})
         c.oblige("the cache clause was exercised across decoder_end_utt at an unchanged frame count (full_utt decodes)",
                  stats.get("cache:same-frame-count-across-decoder_end_utt", 0) >= 1, {k: v for k, v in stats.items() if k.startswith("cache")})
     c.cov.update({"evaluations": nlat, "distinct_nontrivial": len(distinct),
